@@ -66,6 +66,9 @@ type Task struct {
 	sys    *SysReq
 	point  string
 	Panic  string // set when fn panicked
+	// Local is scratch space for the task's own goroutine (engines use it to
+	// count scheduling points within one operation).
+	Local int
 }
 
 // Verdict of a scheduled run.
